@@ -991,8 +991,13 @@ fn tick_peer<I: HInp, P: InputPredictor<I> + 'static>(
     let use_wait = pe.use_wait;
     let res = catch_unwind(AssertUnwindSafe(|| {
         if use_wait {
+            // all three entry points of the lockstep wait helper, in rotation
             verif_hooks::clock::set_auto_tick_micros(100);
-            let r = s.advance_frame_with_wait();
+            let r = match tick % 3 {
+                0 => s.advance_frame_with_wait(),
+                1 => s.advance_frame_with_wait_timeout(Duration::from_millis(3)),
+                _ => s.advance_frame_with_wait_timeout(Duration::from_micros(0)),
+            };
             verif_hooks::clock::set_auto_tick_micros(0);
             r
         } else {
